@@ -181,6 +181,12 @@ def run(ctx, log):
                 e = orig[:i] + repl + orig[i + 1:]
                 edits.append(("stel s = %s; s[%d] = %s; stel t = %s; [s == t, t == s, s != t, lengte(s), s]" % (nlast.quote(orig), i, nlast.quote(repl), nlast.quote(e)),
                               "OK #0=A[b1,b1,b0,i%d,#1=S%s]" % (len(e), nlast.cps(e))))
+    edits += [("stel nul = 0.0; stel min = -0.0; [1.0 / min, 1.0 / nul]", "OK #0=A[#1=Ffff0000000000000,#2=F7ff0000000000000]"),
+              ("stel min = -0.0; stel nul = 0.0; [1.0 / min, 1.0 / nul]", "OK #0=A[#1=Ffff0000000000000,#2=F7ff0000000000000]"),
+              ("[0.0, -0.0, 0.0]", "OK #0=A[#1=F0000000000000000,#2=F8000000000000000,#1]"),
+              ("stel a = string(\"abc\"); a[0] = \"XY\"; [\"abc\", a, lengte(\"abc\")]", "OK #0=A[#1=S97.98.99,#2=S88.89.98.99,i3]"),
+              ("stel a = string(\"q\"); stel b = string(\"q\"); a[0] = \"w\"; [a, b, \"q\" == b]", "OK #0=A[#1=S119,#2=S113,b1]"),
+              ("[-1, 0 - 1, -(1), 1]", "OK #0=A[i-1,i-1,i-1,i1]")]
     eo = vlib.nlh("eval", ["1000 " + vlib.hexs(src) for src, _ in edits], tag="c15e")
     for (src, exp), o in zip(edits, eo):
         ctx.seen(src)
